@@ -27,6 +27,8 @@ type Ctx struct {
 	ifaceContracts map[string]*FuncContract
 	all            []*FuncContract
 	pures          map[string]*PureFunc
+	ghosts         map[string]*GhostFunc
+	ghostVars      map[string]*GhostVar
 	opaque         map[string]bool
 	closures       map[string]*closureInfo
 	ranges         map[*ssa.Range]*rangeState
@@ -80,23 +82,36 @@ func (c *Ctx) funcFor(fc *FuncContract) *ssa.Function {
 		if end < 0 || end+2 > len(key) {
 			return nil
 		}
-		tn := key[1:end]
+		tn := strings.TrimPrefix(key[1:end], "*")
 		m := key[end+2:]
-		ptr := strings.HasPrefix(tn, "*")
-		tn = strings.TrimPrefix(tn, "*")
+		anon := ""
+		if i := strings.Index(m, "$"); i >= 0 {
+			anon = m[i:]
+			m = m[:i]
+		}
 		obj := sp.Pkg.Scope().Lookup(tn)
 		if obj == nil {
 			return nil
 		}
-		var t types.Type = obj.Type()
-		if ptr {
-			t = types.NewPointer(t)
-		}
-		sel := c.prog.MethodSets.MethodSet(t).Lookup(sp.Pkg, m)
-		if sel == nil {
+		named, ok := obj.Type().(*types.Named)
+		if !ok {
 			return nil
 		}
-		return c.prog.MethodValue(sel)
+		for i := 0; i < named.NumMethods(); i++ {
+			if named.Method(i).Name() == m {
+				f := c.prog.FuncValue(named.Method(i))
+				if f == nil || anon == "" {
+					return f
+				}
+				for _, af := range f.AnonFuncs {
+					if strings.HasSuffix(af.Name(), anon) {
+						return af
+					}
+				}
+				return nil
+			}
+		}
+		return nil
 	}
 	if strings.Contains(key, "$") {
 		// anonymous function: outer$1
@@ -125,7 +140,7 @@ func Load(repo string, patterns []string) (*Ctx, error) {
 		return nil, err
 	}
 	ctx := &Ctx{repo: repo, byPath: map[string]*packages.Package{}, spkg: map[string]*ssa.Package{}, contracts: map[string]*FuncContract{},
-		ifaceContracts: map[string]*FuncContract{}, pures: map[string]*PureFunc{}, opaque: map[string]bool{}, closures: map[string]*closureInfo{},
+		ifaceContracts: map[string]*FuncContract{}, pures: map[string]*PureFunc{}, ghosts: map[string]*GhostFunc{}, ghostVars: map[string]*GhostVar{}, opaque: map[string]bool{}, closures: map[string]*closureInfo{},
 		ranges: map[*ssa.Range]*rangeState{}, globals: map[*types.Var]int{}}
 	for _, p := range pkgs {
 		for _, e := range p.Errors {
@@ -173,6 +188,12 @@ func Load(repo string, patterns []string) (*Ctx, error) {
 	for _, cf := range ctx.files {
 		for _, o := range cf.Opaque {
 			ctx.opaque[o] = true
+		}
+		for _, gv := range cf.GhostVars {
+			ctx.ghostVars[gv.Name] = gv
+		}
+		for _, gf := range cf.Ghosts {
+			ctx.ghosts[cf.PkgPath+"."+gf.Name] = gf
 		}
 		for _, pf := range cf.Pures {
 			ctx.pures[cf.PkgPath+"."+pf.Name] = pf
